@@ -43,24 +43,9 @@ def mkAttrs : List (String × Option String) → List (String × String)
   | (k, some v) :: r => (k, v) :: mkAttrs r
   | (_, none) :: r => mkAttrs r
 
-mutual
-/-- `ValueHelper::serialize_within` (serde_xml_plist.rs:339-358): the tagged element of a value -/
-def serializeWithin (c : Codec) : PV → Out Tree
-  | .arr a => (arrayInner c a).map (Tree.elem "array" [])
-  | .dict d => (dictInner c d).map (Tree.elem "dict" [])
-  | .bool true => .ok (.elem "true" [] [])
-  | .bool false => .ok (.elem "false" [] [])
-  | .data d => (valueInner c (.data d)).map (Tree.elem "data" [])
-  | .date d => (valueInner c (.date d)).map (Tree.elem "date" [])
-  | .real r => (valueInner c (.real r)).map (Tree.elem "real" [])
-  | .int i => (valueInner c (.int i)).map (Tree.elem "integer" [])
-  | .str s => (valueInner c (.str s)).map (Tree.elem "string" [])
-  | .uid _ => .err
-/-- `ValueInnerHelper::serialize` (:380-401): the content of the tagged element.  The container arms are
-    dead code (`serialize_within` goes to the inner helpers directly); the boolean arm is `unreachable!`. -/
-def valueInner (c : Codec) : PV → Out (List Tree)
-  | .arr a => arrayInner c a
-  | .dict d => dictInner c d
+/-- `ValueInnerHelper::serialize` (serde_xml_plist.rs:380-401), the arms without recursion: the content of
+    the tagged element of a leaf value.  The boolean arm is the `unreachable!`. -/
+def leafInner (c : Codec) : PV → Out (List Tree)
   | .bool _ => .panic
   | .data d => .ok (if c.encData d = "" then [] else [.txt (c.encData d)])
   | .date d => match c.showDate d with
@@ -69,6 +54,22 @@ def valueInner (c : Codec) : PV → Out (List Tree)
   | .real r => .ok (if c.showF64 r = "" then [] else [.txt (c.showF64 r)])
   | .int i => .ok (if c.showInt i = "" then [] else [.txt (c.showInt i)])
   | .str s => .ok (if s = "" then [] else [.txt s])
+  | .uid _ => .err
+  | .arr _ => .err
+  | .dict _ => .err
+
+mutual
+/-- `ValueHelper::serialize_within` (serde_xml_plist.rs:339-358): the tagged element of a value -/
+def serializeWithin (c : Codec) : PV → Out Tree
+  | .arr a => (arrayInner c a).map (Tree.elem "array" [])
+  | .dict d => (dictInner c d).map (Tree.elem "dict" [])
+  | .bool true => .ok (.elem "true" [] [])
+  | .bool false => .ok (.elem "false" [] [])
+  | .data d => (leafInner c (.data d)).map (Tree.elem "data" [])
+  | .date d => (leafInner c (.date d)).map (Tree.elem "date" [])
+  | .real r => (leafInner c (.real r)).map (Tree.elem "real" [])
+  | .int i => (leafInner c (.int i)).map (Tree.elem "integer" [])
+  | .str s => (leafInner c (.str s)).map (Tree.elem "string" [])
   | .uid _ => .err
 /-- `ArrayInnerHelper::serialize` (:426-439) -/
 def arrayInner (c : Codec) : PVs → Out (List Tree)
@@ -80,6 +81,13 @@ def dictInner (c : Codec) : KVs → Out (List Tree)
   | .cons k v r =>
     (serializeWithin c v).bind fun n => (dictInner c r).bind fun ns => .ok (textElem "key" k :: n :: ns)
 end
+
+/-- `ValueInnerHelper::serialize` in full: the container arms are dead code (`serialize_within` goes to the
+    inner helpers directly) -/
+def valueInner (c : Codec) : PV → Out (List Tree)
+  | .arr a => arrayInner c a
+  | .dict d => dictInner c d
+  | v => leafInner c v
 
 /-- `serde_xml_plist::serialize` (:318-325) under `skip_serializing_if = "Dictionary::is_empty"` -/
 def libNodes (c : Codec) (l : KVs) : Out (List Tree) :=
@@ -96,62 +104,88 @@ def joinSp : List (List Char) → List Char
 def showValues (c : Codec) (vs : List F32) : String :=
   String.ofList (joinSp (vs.map fun v => (c.showF32 v).toList))
 
+/-! the attribute table of every struct: serde name and the value written, `none` = omitted
+    (`skip_serializing_if`).  The names are compared with the table regenerated from designspace.rs
+    (`source_*` theorems). -/
+
+@[simp] def dimensionAttrs (c : Codec) (d : Dimension) : List (String × Option String) :=
+  [("name", some d.name), ("uservalue", d.uservalue.map c.showF32),
+    ("xvalue", d.xvalue.map c.showF32), ("yvalue", d.yvalue.map c.showF32)]
+
 def dimensionNode (c : Codec) (d : Dimension) : Tree :=
-  .elem "dimension" (mkAttrs [("name", some d.name), ("uservalue", d.uservalue.map c.showF32),
-    ("xvalue", d.xvalue.map c.showF32), ("yvalue", d.yvalue.map c.showF32)]) []
+  .elem "dimension" (mkAttrs (dimensionAttrs c d)) []
 
 /-- `serde_impls::location::serialize` -/
 def locationNode (c : Codec) (l : List Dimension) : Tree :=
   .elem "location" [] (l.map (dimensionNode c))
 
+@[simp] def mapAttrs (c : Codec) (m : AxisMapping) : List (String × Option String) :=
+  [("input", some (c.showF32 m.input)), ("output", some (c.showF32 m.output))]
+
 def mapNode (c : Codec) (m : AxisMapping) : Tree :=
-  .elem "map" (mkAttrs [("input", some (c.showF32 m.input)), ("output", some (c.showF32 m.output))]) []
+  .elem "map" (mkAttrs (mapAttrs c m)) []
 
 /-- `map: Option<Vec<AxisMapping>>` under `skip_serializing_if = "Option::is_none"` -/
 def mapNodes (c : Codec) : Option (List AxisMapping) → List Tree
   | none => []
   | some ms => ms.map (mapNode c)
 
-def axisNode (c : Codec) (a : Axis) : Tree :=
-  .elem "axis" (mkAttrs [("name", some a.name), ("tag", some a.tag), ("default", some (c.showF32 a.default)),
+@[simp] def axisAttrs (c : Codec) (a : Axis) : List (String × Option String) :=
+  [("name", some a.name), ("tag", some a.tag), ("default", some (c.showF32 a.default)),
       ("hidden", if a.hidden then some "true" else none),
       ("minimum", a.minimum.map c.showF32), ("maximum", a.maximum.map c.showF32),
-      ("values", a.values.map (showValues c))])
-    (mapNodes c a.map)
+      ("values", a.values.map (showValues c))]
+
+def axisNode (c : Codec) (a : Axis) : Tree :=
+  .elem "axis" (mkAttrs (axisAttrs c a)) (mapNodes c a.map)
+
+@[simp] def conditionAttrs (c : Codec) (x : Condition) : List (String × Option String) :=
+  [("name", some x.name), ("minimum", x.minimum.map c.showF32), ("maximum", x.maximum.map c.showF32)]
 
 def conditionNode (c : Codec) (x : Condition) : Tree :=
-  .elem "condition" (mkAttrs [("name", some x.name), ("minimum", x.minimum.map c.showF32),
-    ("maximum", x.maximum.map c.showF32)]) []
+  .elem "condition" (mkAttrs (conditionAttrs c x)) []
 
 def conditionSetNode (c : Codec) (s : ConditionSet) : Tree :=
   .elem "conditionset" [] (s.conditions.map (conditionNode c))
 
+@[simp] def subAttrs (s : Substitution) : List (String × Option String) :=
+  [("name", some s.name), ("with", some s.withName)]
+
 def subNode (s : Substitution) : Tree :=
-  .elem "sub" (mkAttrs [("name", some s.name), ("with", some s.withName)]) []
+  .elem "sub" (mkAttrs (subAttrs s)) []
+
+@[simp] def ruleAttrs (r : Rule) : List (String × Option String) := [("name", r.name)]
 
 def ruleNode (c : Codec) (r : Rule) : Tree :=
-  .elem "rule" (mkAttrs [("name", r.name)])
+  .elem "rule" (mkAttrs (ruleAttrs r))
     (r.conditionSets.map (conditionSetNode c) ++ r.substitutions.map subNode)
 
 def showProcessing : RuleProcessing → String
   | .first => "first"
   | .last => "last"
 
+@[simp] def rulesAttrs (r : Rules) : List (String × Option String) :=
+  [("processing", some (showProcessing r.processing))]
+
 def rulesNode (c : Codec) (r : Rules) : Tree :=
-  .elem "rules" (mkAttrs [("processing", some (showProcessing r.processing))]) (r.rules.map (ruleNode c))
+  .elem "rules" (mkAttrs (rulesAttrs r)) (r.rules.map (ruleNode c))
 
 /-- `Rules::is_empty` (designspace.rs:270-275, after the fix: the processing mode counts) -/
 def rulesIsEmpty (r : Rules) : Bool := r.rules.isEmpty && r.processing == .first
 
-def sourceNode (c : Codec) (s : Source) : Tree :=
-  .elem "source" (mkAttrs [("familyname", s.familyname), ("stylename", s.stylename), ("name", s.name),
-      ("filename", some s.filename), ("layer", s.layer)])
-    [locationNode c s.location]
+@[simp] def sourceAttrs (s : Source) : List (String × Option String) :=
+  [("familyname", s.familyname), ("stylename", s.stylename), ("name", s.name),
+      ("filename", some s.filename), ("layer", s.layer)]
 
-def instanceAttrs (i : Instance) : List (String × String) :=
-  mkAttrs [("familyname", i.familyname), ("stylename", i.stylename), ("name", i.name),
+def sourceNode (c : Codec) (s : Source) : Tree :=
+  .elem "source" (mkAttrs (sourceAttrs s)) [locationNode c s.location]
+
+@[simp] def instanceAttrSpec (i : Instance) : List (String × Option String) :=
+  [("familyname", i.familyname), ("stylename", i.stylename), ("name", i.name),
     ("filename", i.filename), ("postscriptfontname", i.postscriptfontname),
     ("stylemapfamilyname", i.stylemapfamilyname), ("stylemapstylename", i.stylemapstylename)]
+
+def instanceAttrs (i : Instance) : List (String × String) := mkAttrs (instanceAttrSpec i)
 
 def instanceNode (c : Codec) (i : Instance) : Out Tree :=
   (libNodes c i.lib).map fun ls => .elem "instance" (instanceAttrs i) (locationNode c i.location :: ls)
@@ -164,11 +198,14 @@ def instanceNodes (c : Codec) : List Instance → Out (List Tree)
 def wrapList (name : String) (items : List Tree) : List Tree :=
   if items.isEmpty then [] else [.elem name [] items]
 
+@[simp] def docAttrs (c : Codec) (d : Doc) : List (String × Option String) :=
+  [("format", some (c.showF32 d.format))]
+
 /-- `DesignSpaceDocument::save` up to the XML tree (designspace.rs:17-38, 258-267) -/
 def toTree (c : Codec) (d : Doc) : Out Tree :=
   (instanceNodes c d.instances).bind fun insts =>
   (libNodes c d.lib).bind fun ls =>
-  .ok (.elem "designspace" (mkAttrs [("format", some (c.showF32 d.format))])
+  .ok (.elem "designspace" (mkAttrs (docAttrs c d))
     (wrapList "axes" (d.axes.map (axisNode c)) ++
      (if rulesIsEmpty d.rules then [] else [rulesNode c d.rules]) ++
      wrapList "sources" (d.sources.map (sourceNode c)) ++
